@@ -427,7 +427,7 @@ func TestVerifC02DB(t *testing.T) {
 						names = append(names, k)
 					}
 					sort.Strings(names)
-					s.meta.Xattr(p, names[rnd.Intn(len(names))], true)
+					s.meta.Xattr(p, names[rnd.Intn(len(names))], p != "")
 				}
 			case 3:
 				if !pf {
